@@ -85,8 +85,16 @@ def op(rng, bpp, w, h):
     if k < 0.8:
         n = rng.randrange(0, 6)
         return 'D:' + ';'.join('%d:%d:%d' % (coord(rng, w), coord(rng, h), value(rng, bpp)) for _ in range(n))
-    if k < 0.95:
+    if k < 0.88:
+        # now and then an area far outside / at the i32 limits (Rectangle::points must not be confused by it)
+        if rng.random() < 0.1:
+            return 'F:%d:%d:%d:%d:%d' % (rng.choice([-2 ** 31, 2 ** 31 - 3, -70000, 65536]), rng.randrange(-3, h + 2), rng.randrange(0, 3), rng.randrange(0, h + 3), value(rng, bpp))
         return 'F:%d:%d:%d:%d:%d' % (rng.randrange(-3, w + 2), rng.randrange(-3, h + 2), rng.randrange(0, w + 3), rng.randrange(0, h + 3), value(rng, bpp))
+    if k < 0.95:
+        aw, ah = rng.randrange(0, w + 3), rng.randrange(0, h + 3)
+        n = aw * ah
+        n = rng.choice([n, n, n, max(0, n - rng.randrange(1, 4)), n + rng.randrange(1, 4), 0])
+        return 'G:%d:%d:%d:%d/%s' % (rng.randrange(-3, w + 2), rng.randrange(-3, h + 2), aw, ah, ','.join(str(value(rng, bpp)) for _ in range(n)))
     return 'C:%d' % value(rng, bpp)
 
 
